@@ -187,6 +187,16 @@ def check_C13(chk):
                     cases.append({"id": next(nid), "len": L, "nsend": a, "nrecv": b, "nshm": c, "faults": p, "level": "platform"})
         for lo in range(0, len(cases), 300):
             jobs.append((bins["default"], S, cases[lo:lo + 300], "default", True))
+    # the receiver only looks after the send has returned (S = 4096: six packets fit the real socket buffers): the packets in flight
+    # were sized by what the sender believed while it sent - whatever it learned from a refusal must not shrink what the receiver offers
+    lcases = []
+    for p in all_patterns(4) + ["00001", "000001", "0010001"]:
+        for L in F.shape_lengths(4096):
+            lcases.append({"id": next(nid), "len": L, "nsend": 1, "nrecv": 0, "nshm": 0, "faults": p, "late": 1, "level": "platform"})
+    # and messages sent WITHOUT any refusal right after such sends, in the same process
+    for L in F.shape_lengths(4096):
+        lcases.append({"id": next(nid), "len": L, "nsend": 0, "nrecv": 0, "nshm": 0, "faults": "", "late": 1, "level": "platform"})
+    jobs.append((bins["default"], 4096, lcases, "default", True))
     items = run_parallel(jobs)
     fails, bad = judge(chk, items, False, "c13", lambda it: "1" in it["case"].get("faults", ""))
     chk.coverage["exhaustive"] = True
